@@ -67,6 +67,8 @@ def parse_op(s):
     if m: return {"PanicInCellMut": {"c": int(m[1])}}
     m = re.match(r"^x(\d+)\.with_mut\(panic\)$", s)
     if m: return {"PanicInAtomMut": {"a": int(m[1])}}
+    m = re.match(r"^skip_next_unless\((-?\d+)\)$", s)
+    if m: return {"SkipNextUnless": {"v": int(m[1])}}
     m = re.match(r"^panic_if\((-?\d+)\)$", s)
     if m: return {"PanicIf": {"v": int(m[1])}}
     simple = {"park": "Park", "yield": "Yield", "recv": "Recv", "try_recv": "TryRecv", "drop(rx)": "DropRx", "stop_exploring": "StopExploring", "explore": "Explore", "skip_branch": "SkipBranch"}
